@@ -82,6 +82,19 @@ def run_fsm(ctx):
                     if nf[0] == "==" and "state" in nf[1] + nf[2] and "State::" in nf[1] + nf[2]:
                         frm = (nf[1] + nf[2]).split("State::")[1].split("{")[0]
                 key = "%s:->%s" % (name, to)
+                if to == "Open":
+                    # co-mutation: the reset timeout is measured from last_failure_time, so every transition INTO Open has to
+                    # stamp it on the same path (a stale stamp from the first trip makes the next allow_request re-admit at once)
+                    stamps = []
+                    for b2 in sorted(b.live):
+                        for s2 in b.stmts(b2):
+                            p2 = s2["d"]["p"]
+                            if p2 and isinstance(p2[-1], dict) and p2[-1].get("f") == "last_failure_time" and p2[-1].get("a") == INNER:
+                                stamps.append(b2)
+                    if any(b.dominates(x, bb) or b.dominates(bb, x) for x in stamps):
+                        ctx.ok("fsm", key + ":stamped@%s" % (frm if not isinstance(frm, list) else "arm%s" % frm[0]), "last_failure_time written on the same path", site=s["sp"])
+                    else:
+                        ctx.violation("fsm", key + ":stamped", "%s moves the breaker to Open on a path that does not set last_failure_time: allow_request measures the reset timeout from that stamp, so after a failed half-open probe the (long elapsed) stamp of the first trip lets the very next request through instead of rejecting until the timeout has passed again" % name, site=s["sp"])
                 if name == "record_failure" and to == "Open":
                     thr = [nf for nf in nfs if "failure_threshold" in nf[1] + nf[2]]
                     if thr:
